@@ -41,6 +41,39 @@ var validRequests = []string{
 	`{col(c: RED) big(x: 1, y: 1.5, t: "2020-01-02T03:04:05Z", id: 7) fail(s: "fail") when}`,
 }
 
+// sdlAdversarial: small hostile schema documents (SDLNext separates successive loads into one root).
+var sdlAdversarial = []string{
+	``, `#`, "\ufeff", `schema {}`, `schema { query: Nope }`, `schema { query: Query } schema { query: Query } type Query { a: Int }`,
+	`extend schema { mutation: M }`, `type Query { a: Int } type M { b: Int } extend schema { mutation: M }`,
+	`extend schema { mutation: M } type M { b: Int } type Query { a: Int }`,
+	`extend schema @deprecated`, `extend schema`, `extend`, `extend type`, `extend type Nope { a: Int }`, `extend Query { a: Int }`,
+	`type Query { a: Int } extend type Query`, `type Query { a: Int } extend type Query { a: Int }`, `type Query { a: Int } extend enum Query { A }`,
+	`type Query { a: Int } extend interface Query { b: Int }`, `type Query { a: Int } extend union Query = Query`, `type Query { a: Int } extend input Query { b: Int }`,
+	`type Query { a: Int } extend scalar Time @deprecated`, `extend scalar Int @deprecated`, `extend type __Type { x: Int }`, `extend enum __TypeKind { X }`,
+	`extend directive @skip(x: Int) on FIELD`, `type Query { a: Int } extend type Query @go(type: 3)`,
+	`type Query implements Query { a: Int }`, `interface I implements I { a: Int } type Query implements I { a: Int }`, `union U = U type Query { u: U }`,
+	`union U = | type Query { a: Int }`, `union U type Query { a: Int }`, `input A { a: A! } type Query { f(a: A): Int }`, `input A { a: A = {} } type Query { f(a: A = {}): Int }`,
+	`input A { a: [A!]! = [{}] } type Query { f(a: A): Int }`, `enum E { true false null } type Query { e: E }`, `enum E {} type Query { e: E }`,
+	`type Query { a(x: Int = "s"): Int }`, `type Query { a(x: [Int] = [[1]]): Int }`, `type Query { a(x: Int = $v): Int }`, `type Query { a(x: E = A): Int }`,
+	`directive @d(p: In = {x: {x: {x: 1}}}) on FIELD_DEFINITION input In { x: In } type Query { a: Int @d }`,
+	`directive @d on NOWHERE type Query { a: Int }`, `directive @d on type Query { a: Int }`, `directive @d(p: Int @d) on ARGUMENT_DEFINITION type Query { a: Int }`,
+	`directive @a(p: Int @b) on ARGUMENT_DEFINITION directive @b(p: Int @a) on ARGUMENT_DEFINITION type Query { a: Int }`,
+	`type Query { a: Int @nope! }`, `type Query { a: Int @[deprecated] }`, `type Query @deprecated(reason: {a: 1}) { a: Int }`, `type Query { a: [[[[[[[[Int!]!]!]!]!]!]!]!]! }`,
+	`type Query { a: Int!! }`, `type Query { a: [Int }`, `type Query { a: ]Int[ }`, `type Query { a(: Int): Int }`, `type Query { a(x: Int,,,): Int }`, `type Query { : Int }`,
+	`type Query { a: Int } type Query { b: Int }`, `scalar Int type Query { a: Int }`, `scalar Time type Query { a: Time }`, `type Int { a: Int } type Query { a: Int }`,
+	`type __Foo { a: Int } type Query { a: Int }`, `type Query { __a: Int }`, `type Query { a(__x: Int): Int }`, `"""unterminated type Query { a: Int }`, `"unterminated
+type Query { a: Int }`, `type Query { a: Int } """`, `type Query { "" a: Int }`, `type Query { """""" a: Int }`, `type Query { a: Int } #`,
+	`type Mutation { a: Int }`, `type Subscription { a: Int }`, `enum Query { A }`, `input Query { a: Int }`, `scalar Query`, `interface Query { a: Int }`, `union Query = Query`,
+	"type Query { a: Int }" + "\n##next-load##\n" + "type Query { b: Int }",
+	"type Query { a: Int }" + "\n##next-load##\n" + "extend type Query { a: Int }" + "\n##next-load##\n" + "extend type Query { b: Int }",
+	"type Query { a: Int }" + "\n##next-load##\n" + "schema { query: Nope }" + "\n##next-load##\n" + "type M { b: Int } extend schema { mutation: M }",
+	"type Query { a: I } interface I { x: Int } type T implements I { x: Int }" + "\n##next-load##\n" + "extend interface I { y: Int }" + "\n##next-load##\n" + "extend type T { y: Int }",
+	"extend schema { mutation: M }" + "\n##next-load##\n" + "type M { b: Int }" + "\n##next-load##\n" + "type Query { a: Int }",
+	"schema { query: Q } type Q { a: Int }" + "\n##next-load##\n" + "schema { query: R } type R { a: Int }",
+	"directive @d(p: Int = 1) on OBJECT type Query @d { a: Int }" + "\n##next-load##\n" + "directive @d(p: String) on OBJECT",
+	"enum E { A } type Query { f(e: E = A): E }" + "\n##next-load##\n" + "extend enum E { A }" + "\n##next-load##\n" + "extend enum E { B @deprecated }",
+}
+
 var adversarial = []string{
 	`{...F} fragment F on Query {...F}`,
 	`{...F} fragment F on Query {obj{...G}} fragment G on Query {obj{...F}}`,
@@ -261,7 +294,7 @@ func fragmentGraph(t *rapid.T) string {
 
 func genInput(t *rapid.T) *Input {
 	in := &Input{Fault: -1}
-	switch kind := rapid.SampledFrom([]string{"exe-soup", "exe-mutated", "exe-mutated", "exe-adversarial", "exe-adversarial", "exe-valid-badvars", "exe-fragment-graph", "exe-fragment-graph", "sdl-soup", "sdl-mutated", "sdl-mutated",
+	switch kind := rapid.SampledFrom([]string{"exe-soup", "exe-mutated", "exe-mutated", "exe-adversarial", "exe-adversarial", "exe-valid-badvars", "exe-fragment-graph", "exe-fragment-graph", "sdl-soup", "sdl-mutated", "sdl-mutated", "sdl-adversarial", "sdl-adversarial-mutated", "sdl-multi-load",
 		"sdl-valid", "value-soup", "value-bytes", "bytes", "deep-nesting", "writer"}).Draw(t, "kind"); kind {
 	case "exe-fragment-graph":
 		in.Target, in.Text, in.Note = "exe", fragmentGraph(t), kind
@@ -275,6 +308,24 @@ func genInput(t *rapid.T) *Input {
 		in.Target, in.Text, in.Note = "exe", rapid.SampledFrom(adversarial).Draw(t, "adv"), kind
 	case "exe-valid-badvars":
 		in.Target, in.Text, in.Note = "exe", rapid.SampledFrom(validRequests).Draw(t, "valid"), kind
+	case "sdl-adversarial":
+		in.Target, in.Text, in.Note = "sdl", rapid.SampledFrom(sdlAdversarial).Draw(t, "sadv"), kind
+	case "sdl-adversarial-mutated":
+		txt, ops := mutateText(t, rapid.SampledFrom(sdlAdversarial).Draw(t, "sadv"), sdlTokens, "sam")
+		in.Target, in.Text, in.Note = "sdl", txt, kind+": "+ops
+	case "sdl-multi-load":
+		// a generated schema cut into successive loads (definitions permuted, members in extend blocks), one of them damaged
+		s := sdl.GenFull(t, sdl.Opts{Descs: true, Directives: true, Deprecated: true})
+		parts := sdl.Arrange(t, s, hx.SDLOpts{}, "ml", true, 4).Texts()
+		i := rapid.IntRange(0, len(parts)-1).Draw(t, "damaged")
+		ops := ""
+		if rapid.IntRange(0, 3).Draw(t, "damage") != 0 {
+			parts[i], ops = mutateText(t, parts[i], sdlTokens, "mlm")
+		}
+		if rapid.IntRange(0, 3).Draw(t, "repeat") == 0 {
+			parts = append(parts, parts[rapid.IntRange(0, len(parts)-1).Draw(t, "again")])
+		}
+		in.Target, in.Text, in.Note = "sdl", strings.Join(parts, SDLNext), kind+": "+ops
 	case "sdl-soup":
 		in.Target, in.Text, in.Note = "sdl", genSoup(t, sdlTokens, "s"), kind
 	case "sdl-mutated", "sdl-valid":
@@ -369,6 +420,9 @@ func TestC03(t *testing.T) {
 		for _, op := range []string{"", "Q"} {
 			one(t.Fatalf, &Input{Target: "exe", Text: txt, Op: op, Fault: -1, Note: "exe-corpus"})
 		}
+	}
+	for _, txt := range sdlAdversarial {
+		one(t.Fatalf, &Input{Target: "sdl", Text: txt, Fault: -1, Note: "sdl-corpus"})
 	}
 	rapid.Check(t, func(rt *rapid.T) { one(rt.Fatalf, genInput(rt)) })
 }
